@@ -2,7 +2,7 @@
 import ast
 
 from ..model import dotted_of
-from ..rules import err, idx, fmt, contract, seq, exitcode
+from ..rules import err, idx, fmt, contract, seq, exitcode, attr, extparse
 from ..scopes import in_front_end, funcs
 from . import c16
 
@@ -14,7 +14,9 @@ CLAIM = (
     "regular-expression parser used for pattern verification is total as far as C16's totality clauses go (cursor preconditions, "
     "assertion arms, quantifier bounds, non-empty sets); (4) numeric format specs are applied to numbers; (5) icontract lambdas are "
     "well-typed against the decorated signature (a mistyped contract raises instead of reporting); (6) run.load_model reaches success "
-    "only through all front-end stages and main.execute pairs its exit code with stderr."
+    "only through all front-end stages and main.execute pairs its exit code with stderr; (7) no attribute is read from a union-typed "
+    "value when a member of the union lacks it (isinstance narrowing followed through boolean operators, conditional expressions, "
+    "comprehensions, asserts); (8) docutils, re.compile and ast.parse run on input-derived text only inside handlers covering their failures."
 )
 NOTE = (
     "Trusted base: the resolver and CFG; the frozen table of lengths guaranteed by the Python grammar; one named exception "
@@ -42,6 +44,8 @@ def run(ctx) -> None:
     ctx.rule("CONTRACT", "icontract lambdas are well-typed against the decorated function", floor=8)
     ctx.rule("SEQ", "load_model reaches success only through all front-end stages", floor=1)
     ctx.rule("ERR4", "main.execute pairs exit code and stderr", floor=8)
+    ctx.rule("ATTR", "no attribute access on a union-typed value one of whose members lacks the attribute (front end)", floor=300)
+    ctx.rule("EXT-PARSE", "external parsers (docutils, re, ast) run on input-derived text inside a handler covering their failures", floor=2)
     for r, d, fl in (
         ("PRE-CURSOR", "retree: _parse_range_char preconditions established", 2),
         ("ARM", "retree: AssertionError arms unreachable", 5),
@@ -56,6 +60,8 @@ def run(ctx) -> None:
         err.check_ret_xor(ctx, f, "RET-XOR")
         fmt.check_format_specs(ctx, f, "FMT")
         contract.check_contract_lambdas(ctx, f, "CONTRACT")
+        attr.check_attr(ctx, f, "ATTR")
+        extparse.check_ext_parse(ctx, f, "EXT-PARSE")
         if f.module.name.startswith(("aas_core_codegen.parse", "aas_core_codegen.intermediate")):
             if (f.module.relpath, f.qualname) in IDX_EXCEPTIONS:
                 continue
